@@ -1002,6 +1002,88 @@ def do_replay(c, replay):
     return c.finish(True, "")
 
 
+def run_ti_pmf(c, tier):
+    """End to end: the 1-D free-energy file written by the thermodynamic-integration estimator of a restraint (writeTIPMF),
+    for periodic and non-periodic variables, equals the cumulative sum of minus the bin-averaged forces in the .ti.force file
+    written next to it (mean removed for a periodic grid), shifted to a zero minimum."""
+    import ctl
+    rng = c.rng.__class__(c.seed * 4099 + 3)
+    ncases = 6 if tier == "quick" else 40
+    cases = []
+    for i in range(ncases):
+        periodic = (i % 3 != 2)
+        w = rng.choice([0.5, 1.0])
+        T = 90
+        # values on a dyadic grid over the whole range, some bins left empty; force with a non-zero mean
+        skip = set(rng.sample(range(int(8 / w)), 2)) if rng.random() < 0.6 else set()
+        xs = []
+        while len(xs) < T:
+            x = ctl.dy(rng, -3.9375, 3.9375, 4)
+            if int((x + 4.0) // w) in skip:
+                continue
+            xs.append(x)
+        fs = [ctl.dy(rng, -2.0, 6.0, 4) for _ in range(T)]
+        cfg = ctl.cv_d2(-4.0, 4.0, w, cvc_extra=("    period 8.0\n" if periodic else "")) + (
+            "harmonic {\n  name h\n  colvars d2\n  centers 0.5\n  forceConstant 0.25\n  writeTIPMF on\n  writeTISamples on\n}\n")
+        scn = ctl.header("same", extra="dt 1.0\ntemp 300.0") + "emit atoms off\nmodule\nprefix out\nconfig <<EOC\n" + cfg + "EOC\ninit\n"
+        for x, f in zip(xs, fs):
+            fe = [[0.0, 0.0, 0.0] for _ in range(ctl.NATOMS)]
+            fe[2][2] += f
+            fe[3][2] -= f
+            scn += ctl.pos_line(d2=x) + "\nfext " + " ".join(fnum(v) for q in fe for v in q) + "\nstep\n"
+        scn += "endrun\n"
+        cases.append(dict(idx=i, periodic=periodic, w=w, scn=scn, n=int(round(8 / w))))
+
+    def runner(case):
+        wd = os.path.join(c.work, "tipmf%d" % case["idx"])
+        os.makedirs(wd, exist_ok=True)
+        return common.run_esim("plain", case["scn"], wd, "tipmf", timeout=120)
+
+    def col(path, k=1):
+        return [float(l.split()[k]) for l in open(path) if l.strip() and not l.startswith("#")]
+
+    for case, (r, ev, sp) in zip(cases, common.pmap(runner, cases)):
+        wd = os.path.dirname(sp)
+        fp, ff, fc = [os.path.join(wd, "out.h.ti." + e) for e in ("pmf", "force", "count")]
+        c.count()
+        P = "P" if case["periodic"] else "N"
+        if not r["complete"] or not all(os.path.exists(x) for x in (fp, ff, fc)):
+            c.inconc("TI free-energy files not written (%s): %s" % (P, r["err"][-200:]))
+            continue
+        A = col(fp)
+        f = col(ff)
+        cnt = col(fc)
+        n, w = case["n"], case["w"]
+        if len(f) != n or len(cnt) != n or len(A) != n + 1 or sum(cnt) < 20:
+            c.inconc("TI files have unexpected sizes: %d forces, %d counts, %d surface points for %d bins" % (len(f), len(cnt), len(A), n))
+            continue
+        g = [-(f[i]) if cnt[i] > 0 else 0.0 for i in range(n)]
+        alts = []
+        for empty_mode in (0, 1):
+            # an empty bin read as a zero mean gradient (0), or left out of the mean of a periodic grid (1)
+            if case["periodic"]:
+                nz = n if empty_mode == 0 else max(1, sum(1 for x in cnt if x > 0))
+                corr = sum(g) / nz
+            else:
+                corr = 0.0
+            a = [0.0]
+            for i in range(n):
+                a.append(a[-1] + ((g[i] - corr) if (cnt[i] > 0 or empty_mode == 0) else 0.0) * w)
+            m = min(a)
+            alts.append([x - m for x in a])
+        scale = max(1.0, max(abs(x) for x in A))
+        dev = min(max(abs(x - y) for x, y in zip(A, a)) for a in alts)
+        # the files carry 14 significant digits of the forces and of the surface
+        if dev > 1e-10 * scale * n:
+            key = "1d:%s:ti_pmf_file:%s" % (P, "closure" if (case["periodic"] and abs(A[-1] - A[0]) > 1e-9 * scale * n) else "cumsum")
+            c.violation(key, "%s grid of %d bins: the written .ti.pmf differs from the cumulative sum of minus the bin-averaged forces of "
+                        ".ti.force by %.6g; A_n - A_0 = %.6g; %d empty bins" % ("periodic" if case["periodic"] else "non-periodic", n, dev,
+                                                                                 A[-1] - A[0], sum(1 for x in cnt if x == 0)), [sp, fp, ff, fc])
+            continue
+        c.nontrivial("1d|%s|ti_pmf_file|%s" % (P, "empty_bins" if any(x == 0 for x in cnt) else "all_bins_sampled"))
+        c.bump("ti_pmf_files_checked")
+
+
 def run(tier, replay):
     c = common.Check(PID, tier)
     c.rule = ("distinct (law, dimension, periodicity pattern, sub-law / smoothing / arrival-order class) with a "
@@ -1025,6 +1107,7 @@ def run(tier, replay):
     process(c, "plain", jobs["resid"], 4, 600, results)
     process(c, "plain", jobs["incr"], 6, 600, results)
     process(c, "plain", jobs["e2e"], 1, 600, results)
+    run_ti_pmf(c, tier)
     # a sample of every workload under ASan+UBSan (fatal reports)
     try:
         vbuild.tool("asan", "h_poisson")
